@@ -735,12 +735,12 @@ func ruleOwnWrapScoped(r *Run, rels []string, floor int) {
 								}
 							}
 						}
-						if fname, base, ok := loadOfField(root); ok && fname == f && base == site.Recv {
+						if fname, base, ok := loadOfField(root); ok && fname == f && sameRecvCopy(base, site.Recv) {
 							call, cfn, via = cl, site.Fn, site.Via
 						}
 						// an owned aggregate is closed through its address: i.pair.Close()
 						if aggField[f] {
-							if fname, base, ok := fieldNameOf(root); ok && fname == f && base == site.Recv {
+							if fname, base, ok := fieldNameOf(root); ok && fname == f && sameRecvCopy(base, site.Recv) {
 								call, cfn, via = cl, site.Fn, site.Via
 							}
 						}
@@ -862,6 +862,18 @@ func funcValueOf(v ssa.Value) *ssa.Function {
 		return funcValueOf(x.X)
 	}
 	return nil
+}
+
+// sameRecvCopy: base is the receiver, or the local copy a value receiver is spilled into.
+func sameRecvCopy(base, recv ssa.Value) bool {
+	if base == recv {
+		return true
+	}
+	if al, ok := base.(*ssa.Alloc); ok {
+		sts := storesTo(al)
+		return len(sts) == 1 && sts[0].Val == recv
+	}
+	return false
 }
 
 func findFieldMethodSites(orig *ssa.Function, m string) []fieldMethodSite {
